@@ -452,6 +452,13 @@ CasesC14(lazy) ==
   \cup {CaseX(<<Single("out", L(<<Single("$encode", EncArg(st))>> \o Elems(v)))>>, NoEnv, "listhost", <<v, st>>) : v \in {x \in Vals14 : IsList(x)}, st \in Stacks14}
   \cup {CaseX(<<Single("out", Mk2("$encode", a, "$value", S("x")))>>, NoEnv, "badarg", <<a>>) : a \in {I("1"), True, EmptyMap, L(<<I("1")>>), L(<<S("join"), EmptyMap>>)}}
   \cup {CaseX(<<Single("out", L(<<Single("$encode", S("join")), Single("$encode", S("values")), S("x")>>))>>, NoEnv, "twomarkers", <<>>) : dummy \in {1}}
+  (* $decode: the shapes that are errors before any decoder is asked *)
+  \cup {CaseX(<<Single("out", d)>>, NoEnv, "baddecode", <<>>)
+          : d \in { Mk2("$decode", S("json"), "$value", I("5")), Mk2("$decode", S("json"), "$value", L(<<S("1")>>)),
+                    Mk2("$decode", S("json"), "$value", Null), Single("$decode", S("json")),
+                    Mk3("$decode", S("json"), "$value", S("1"), "extra", I("2")), Mk2("$decode", S("xml"), "$value", S("1")),
+                    Mk2("$decode", I("1"), "$value", S("1")), Mk2("$decode", L(<<S("json")>>), "$value", S("1")),
+                    Mk2("$decode", S(""), "$value", S("1")), Mk2("$decode", S("json"), "value", S("1")) }}
 
 Ctx14 == [docs |-> <<>>, fuel |-> MaxFuel, vars |-> <<>>, codec |-> <<>>, D |-> Null]
 RECURSIVE FoldEnc(_, _)
@@ -468,7 +475,7 @@ LawC14(cs) ==
             /\ (st = <<"join:,">> /\ IsList(v)) => r = Ok(S(JoinStr([i \in DOMAIN Elems(v) |-> Fmt(Elems(v)[i])], ",")))
             /\ (st = <<"prefix:--">> /\ IsList(v)) => r = Ok(L([i \in DOMAIN Elems(v) |-> S("--" \o Fmt(Elems(v)[i]))]))
             /\ (st = <<"flatten">> /\ IsList(v) /\ \A i \in DOMAIN Elems(v) : ~IsList(Elems(v)[i])) => r = Ok(v)
-    [] cs.tag \in {"badarg", "twomarkers"} -> ~EvalS(cs.docs, NoEnv).ok
+    [] cs.tag \in {"badarg", "twomarkers", "baddecode"} -> ~EvalS(cs.docs, NoEnv).ok
     [] OTHER -> TRUE
 
 ---------------------------------------------------------------------------
